@@ -123,19 +123,19 @@ Definition quiet (x : thr) : bool :=
 Definition tinv (s : st) (u : tid) (x : thr) : Prop :=
   match pcv x with
   | IncRdOwner | IncLoad | IncCas _ | DecRdOwner | DecLoad | DecCas _
-  | UnqRdOwner | UnwRdOwner | CntLoad | CntRdOwner => (1 <= held x)%nat
-  | UnqNoneLoad | UnwNoneLoad => (1 <= held x)%nat /\ owner s = None
-  | UnqNoneCas _ => False
+  | UnqRdOwner | UnwRdOwner | CntLoad | CntRdOwner | UmRdOwner => (1 <= held x)%nat
+  | UnqNoneLoad | UnwNoneLoad | UmNoneLoad => (1 <= held x)%nat /\ owner s = None
+  | UnqNoneCas _ | UmNoneCas _ => False
   | UnwNoneCas old => (1 <= held x)%nat /\ merged old = true /\ queued old = false
-  | IncFast | DecFast | UnqOwnRdBiased | UnwOwnRdBiased | CntRdBiased => (1 <= held x)%nat /\ owner s = Some u
-  | UnqOwnLoad | UnwOwnLoad => (1 <= held x)%nat /\ owner s = Some u /\ biased s = 1
+  | IncFast | DecFast | UnqOwnRdBiased | UnwOwnRdBiased | CntRdBiased | UmOwnRdBiased => (1 <= held x)%nat /\ owner s = Some u
+  | UnqOwnLoad | UnwOwnLoad | UmOwnLoad => (1 <= held x)%nat /\ owner s = Some u /\ biased s = 1
   | DecFastUnown => owner s = Some u /\ biased s = 0
   | DecFastLoad | DecFastCas _ => owner s = None /\ biased s = 0 /\ merged (shared s) = false /\ u = creator s
   | DecFastFin w => merged w = true
   | EnqPush key => key = Some (creator s)
   | MrgLoad _ n | MrgCas _ n _ => (1 <= n)%nat /\ u = creator s
   | MrgFin _ n w => (1 <= n)%nat /\ u = creator s /\ merged (shared s) = true
-  | MrgCas2 _ n w => (1 <= n)%nat /\ merged (shared s) = true
+  | MrgCas2 _ n w => (1 <= n)%nat /\ u = creator s /\ merged (shared s) = true
   | MrgFin2 _ n w => (1 <= n)%nat /\ u = creator s /\ merged w = true /\ queued w = false
   | _ => True
   end.
